@@ -17,15 +17,21 @@ build_sched() { # second binary: sync in cache/server/inmemory replaced by the s
   (cd /verif/mc && go build -tags "verif vsched" -overlay /verif/.ovl/overlay.json -o "$BIN/vsched" ./cmd/vcheck) || { echo "BUILD FAILED (vsched with overlay)"; exit 2; }
 }
 
+build_race() { # third binary, for C18's auxiliary pass: the same program built with the race detector (needs cgo)
+  (cd /verif/mc && CGO_ENABLED=1 go build -race -tags verif -o "$BIN/vrace" ./cmd/vcheck) || { echo "RACE BUILD FAILED (C18 runs without its race-detector pass)"; return 1; }
+}
+
 case "${1:-}" in
   setup)
     build
     build_sched
+    build_race
     echo "setup ok"
     ;;
   C14|C17|C18)
     id=$1; tier=${2:-${VERIF_TIER:-quick}}
     build_sched
+    if [ "$id" = C18 ]; then build_race && export VERIF_RACE_BIN="$BIN/vrace"; fi
     shift; shift
     exec "$BIN/vsched" "$id" "$tier" "$@"
     ;;
